@@ -386,6 +386,7 @@ pub fn run(ctx: &Ctx) -> Outcome {
     durations(ctx, &rep);
     ts_serialize(ctx, &rep);
     ts_feed(ctx, &rep);
+    type_mismatch(&rep);
     rep.finish(
         ctx,
         "values: boundary catalogues of R-cal/R-inst (range ends, year classes, fractions, all 2879 whole-minute offsets, \
@@ -404,6 +405,51 @@ pub fn run(ctx: &Ctx) -> Outcome {
             "DateTime<Local> is exercised with the process zone as found (UTC here) on years 1970..2037 and only its instant is compared",
         ],
     )
+}
+
+/// Input of the wrong JSON type (or a malformed value) for every deserializer: must be an `Err`
+/// that can be displayed (this drives the visitors' `expecting` texts), never a panic.
+fn type_mismatch(rep: &Report) {
+    const BAD: &[&str] = &[
+        "\"abc\"", "true", "false", "1.5", "-2.5e300", "[1]", "[]", "{}", "{\"a\":1}", "\"\"", "18446744073709551616", "-9223372036854775809", "1e400", "\"2015-09-05\"",
+        "\"23:56:04\"", "[1,2,3]", "[\"a\",1]", "[1]", "[-1,1000000000]", "[9223372036854775807,999999999]", "\"Mon\\u0000\"", "\"\\ud800\"", "nul", "", " ", "[1,", "\"2015-09-05T23:56:04",
+    ];
+    fn one<T: serde::de::DeserializeOwned>(loc: &mut Loc, what: &str, null_is_ok: bool) {
+        for b in BAD.iter().copied().chain(std::iter::once("null")) {
+            loc.eval();
+            let r = guard(|| serde_json::from_str::<T>(b).map(|_| ()).map_err(|e| e.to_string()));
+            match r {
+                Ok(Ok(())) => {
+                    // a few inputs are legitimately accepted by some targets ([secs, nanos] pairs for TimeDelta, null for options)
+                    let fine = (b == "null" && null_is_ok) || what == "TimeDelta" && b.starts_with('[');
+                    if !fine && !(b.starts_with('"') && (what == "NaiveDate" || what == "NaiveTime")) {
+                        loc.violation(&format!("C20/{}/deserialize/accepts-input-of-the-wrong-type", what), json!({"input": b}));
+                    }
+                }
+                Ok(Err(msg)) => {
+                    if msg.is_empty() {
+                        loc.violation(&format!("C20/{}/deserialize/empty-error-message", what), json!({"input": b}));
+                    }
+                }
+                Err(p) => loc.violation(&format!("C20/{}/deserialize/panic@{}/wrong-type-input", what, p.site()), json!({"input": b, "panic": p.to_json()})),
+            }
+            loc.nontrivial(h2(crate::mon::hstr(what), crate::mon::hstr(b)));
+        }
+    }
+    fn per_mod<M: TsMod>(loc: &mut Loc) {
+        one::<M::W>(loc, M::LABEL, M::OPT);
+    }
+    let mut loc = rep.local();
+    one::<NaiveDate>(&mut loc, "NaiveDate", false);
+    one::<NaiveTime>(&mut loc, "NaiveTime", false);
+    one::<NaiveDateTime>(&mut loc, "NaiveDateTime", false);
+    one::<DateTime<Utc>>(&mut loc, "DateTime<Utc>", false);
+    one::<DateTime<FixedOffset>>(&mut loc, "DateTime<FixedOffset>", false);
+    one::<DateTime<Local>>(&mut loc, "DateTime<Local>", false);
+    one::<TimeDelta>(&mut loc, "TimeDelta", false);
+    one::<Weekday>(&mut loc, "Weekday", false);
+    one::<Month>(&mut loc, "Month", false);
+    for_mods!(per_mod(&mut loc));
 }
 
 fn floor_div(a: i128, b: i128) -> i128 {
